@@ -1,1 +1,612 @@
-(* placeholder *)
+(* Property C17: replicated render components receive their engine companions (src/bundle_fix.rs).
+   Model: fix_system, the nine SFix* cases of run_body, the command CFixInsert, flush. *)
+From stdpp Require Import gmap list.
+From Coq Require Import NArith Lia.
+From RecordUpdate Require Import RecordSet.
+From BS Require Import Sync.Types Sync.Model Sync.Proofs.FixLemmas.
+Import RecordSetNotations.
+Local Open Scope N_scope.
+
+(* ================================================================================================
+   1. A fix command changes nothing but companions
+   ================================================================================================ *)
+
+(* Applying CFixInsert e cs: every entity keeps all its non-component data; every component whose
+   type is not in cs is literally the same record (value, added tick, changed tick); tracker queue,
+   change tokens, outgoing messages, inboxes, command queues, panic flag are untouched. *)
+Theorem fix_never_changes_replicated_values pr e cs :
+  let pr' := apply_cmd pr (CFixInsert e cs) in
+  (forall e', option_Forall2 (fix_ent_rel (fun t => t ∈ cs)) (p_ents pr !! e') (p_ents pr' !! e')) /\
+  t_queue pr' = t_queue pr /\ t_ctok pr' = t_ctok pr /\ p_out pr' = p_out pr /\ n_inbox pr' = n_inbox pr /\
+  p_cmdq pr' = p_cmdq pr /\ p_panic pr' = p_panic pr /\ t_e2u pr' = t_e2u pr /\ t_u2e pr' = t_u2e pr.
+Proof.
+  intros pr'. destruct (fix_insert_rel (fun t => t ∈ cs) pr e cs) as (E & Hq & Hr); [auto|].
+  fold pr' in E, Hq, Hr. split; [exact Hr|].
+  unfold others_eq in E. repeat split; try (rewrite E; reflexivity). exact Hq.
+Qed.
+
+(* spelled out for one component: value, change tick and added tick of a component that is not a
+   companion being inserted are what they were - in particular the replicated Transform / Visibility /
+   light components (type ids < 100) when cs are companions (type ids >= 100) *)
+Corollary fix_keeps_component pr e cs e' en t c :
+  p_ents pr !! e' = Some en -> en_comps en !! t = Some c -> t ∉ cs ->
+  exists en', p_ents (apply_cmd pr (CFixInsert e cs)) !! e' = Some en' /\
+    en_comps en' !! t = Some c /\ en_sync en' = en_sync en /\ en_sync_added en' = en_sync_added en /\
+    en_excl en' = en_excl en.
+Proof.
+  intros He Hc Ht. destruct (fix_never_changes_replicated_values pr e cs) as (Hr & _).
+  specialize (Hr e'). rewrite He in Hr. inversion Hr as [? en' (?&?&?&?&?&?&Hs&?) |]; subst.
+  exists en'. repeat split; auto. rewrite Hs; auto.
+Qed.
+
+(* a flush in which every queued command is a bundle_fix command (companions have ids >= 100) *)
+Theorem fix_flush_never_changes_replicated_values pr :
+  fix_only pr ->
+  let pr' := flush pr in
+  (forall e', option_Forall2 (fix_ent_rel is_companion) (p_ents pr !! e') (p_ents pr' !! e')) /\
+  t_queue pr' = t_queue pr /\ t_ctok pr' = t_ctok pr /\ p_out pr' = p_out pr /\ n_inbox pr' = n_inbox pr /\
+  p_panic pr' = p_panic pr /\ t_e2u pr' = t_e2u pr /\ t_u2e pr' = t_u2e pr /\ p_tick pr' = p_tick pr.
+Proof.
+  intros Hf pr'. destruct (flush_fix_only_rel pr Hf) as (E & Hr). fold pr' in E, Hr.
+  split; [exact Hr|]. unfold others_eq in E. repeat split; rewrite E; reflexivity.
+Qed.
+
+(* ... hence the change detector of every synchronised type (ids < 100) queues exactly the same
+   updates and consumes exactly the same tokens after such a flush as before it *)
+Theorem fix_flush_detector_unaffected pr t last :
+  fix_only pr -> t < 100 ->
+  t_queue (sync_detect (flush pr) t last) = t_queue (sync_detect pr t last) /\
+  t_ctok (sync_detect (flush pr) t last) = t_ctok (sync_detect pr t last).
+Proof.
+  intros Hf Ht. destruct (fix_flush_never_changes_replicated_values pr Hf) as (Hr & Hq & Hc & _ & _ & _ & He & _).
+  destruct (sync_detect_fix_rel pr (flush pr) t last Ht Hr) as (H1 & H2 & _); [repeat split; auto|]. auto.
+Qed.
+Theorem fix_cmd_detector_unaffected pr e cs t last :
+  (forall c, c ∈ cs -> 100 <= c) -> t < 100 ->
+  t_queue (sync_detect (apply_cmd pr (CFixInsert e cs)) t last) = t_queue (sync_detect pr t last) /\
+  t_ctok (sync_detect (apply_cmd pr (CFixInsert e cs)) t last) = t_ctok (sync_detect pr t last).
+Proof.
+  intros Hcs Ht. destruct (fix_insert_rel is_companion pr e cs Hcs) as (E & _ & Hr).
+  destruct (sync_detect_fix_rel pr _ t last Ht Hr) as (H1 & H2 & _); [|auto].
+  unfold others_eq in E. repeat split; rewrite E; reflexivity.
+Qed.
+
+(* the nine systems themselves only queue commands (and advance the tick bookkeeping) *)
+Theorem fix_systems_only_queue s T C pr o :
+  fix_spec s = Some (T, C) ->
+  let pr' := run_system pr s o in
+  p_ents pr' = p_ents pr /\ t_queue pr' = t_queue pr /\ t_ctok pr' = t_ctok pr /\ p_out pr' = p_out pr /\
+  n_inbox pr' = n_inbox pr /\ p_panic pr' = p_panic pr /\
+  (forall k, k <> sys_key s -> p_cmdq pr' !! k = p_cmdq pr !! k) /\
+  (forall c, c ∈ queue pr' (sys_key s) -> c ∈ queue pr (sys_key s) \/ exists e, c = CFixInsert e C).
+Proof.
+  intros Hs pr'. unfold pr'. rewrite (fix_spec_body _ _ _ _ _ Hs).
+  destruct (p_panic pr) eqn:Ep; [repeat split; auto|].
+  set (pr1 := pr <| p_tick := p_tick pr + 1 |>).
+  destruct (fix_system_others pr1 (sys_key s) (last_run pr (sys_key s)) T C C) as (E & He).
+  set (pr2 := fix_system _ _ _ _ _ _) in *. unfold others_eq in E.
+  split; [exact He|]. repeat split; try (cbn; rewrite E; cbn; done).
+  - intros k Hk. cbn. change (p_cmdq pr !! k) with (p_cmdq pr1 !! k). unfold pr2, fix_system.
+    apply (foldl_rel (fun a b => p_cmdq b !! k = p_cmdq a !! k)); [done|congruence|].
+    intros a [e en] _. destruct (en_comps en !! T); [|done]. destruct (_ && _); [|done].
+    unfold push_cmd; cbn. by rewrite lookup_insert_ne.
+  - intros c. unfold queue at 1. cbn. fold (queue pr2 (sys_key s)). unfold pr2, fix_system.
+    change (queue pr (sys_key s)) with (queue pr1 (sys_key s)). generalize pr1.
+    intros a0. revert c.
+    apply (foldl_rel (fun a b => forall c, c ∈ queue b (sys_key s) -> c ∈ queue a (sys_key s) \/ exists e, c = CFixInsert e C)).
+    + auto.
+    + intros a b d H1 H2 c Hc. destruct (H2 c Hc) as [?|?]; auto.
+    + intros a [e en] _ c. destruct (en_comps en !! T); [|auto]. destruct (_ && _); [|auto].
+      unfold queue, push_cmd; cbn. rewrite lookup_insert; cbn.
+      rewrite elem_of_app, elem_of_list_singleton. intros [?| ->]; eauto.
+Qed.
+
+(* ================================================================================================
+   2. The Without<..> filter
+   ================================================================================================ *)
+
+(* If any companion of the kind is present (in particular: all of them), the system queues nothing
+   for the entity. *)
+Theorem fix_skips_when_companion_present s T C pr o e en :
+  fix_spec s = Some (T, C) -> p_ents pr !! e = Some en ->
+  (exists t, t ∈ C /\ has_comp en t = true) ->
+  forall cs, CFixInsert e cs ∈ queue (run_system pr s o) (sys_key s) -> CFixInsert e cs ∈ queue pr (sys_key s).
+Proof.
+  intros Hs He Hsome cs. rewrite (fix_spec_body _ _ _ _ _ Hs). destruct (p_panic pr); [done|].
+  unfold queue at 1. cbn. intros H.
+  eapply (fix_system_skips (pr <| p_tick := p_tick pr + 1 |>)) in H; eauto.
+  by apply sat_has_some.
+Qed.
+
+Theorem present_companions_untouched s T C pr o e en :
+  fix_spec s = Some (T, C) -> p_ents pr !! e = Some en -> has_all C en ->
+  forall cs, CFixInsert e cs ∈ queue (run_system pr s o) (sys_key s) -> CFixInsert e cs ∈ queue pr (sys_key s).
+Proof.
+  intros Hs He Hall. eapply fix_skips_when_companion_present; eauto.
+  destruct (fix_spec_nonempty _ _ _ Hs) as (t & C' & ->). exists t. split; [by left|]. apply Hall. by left.
+Qed.
+
+(* Query<.., (Added<Visibility>, Without<ViewVisibility>, Without<InheritedVisibility>)>: one of the
+   two present is enough for the entity to be skipped; the missing one is not inserted *)
+Theorem visibility_partial_companion_not_fixed pr o e en :
+  p_ents pr !! e = Some en ->
+  has_comp en T_VIEWVIS = true \/ has_comp en T_INHERITEDVIS = true ->
+  forall cs, CFixInsert e cs ∈ queue (run_system pr SFixVisibility o) (sys_key SFixVisibility) ->
+             CFixInsert e cs ∈ queue pr (sys_key SFixVisibility).
+Proof.
+  intros He H. apply (fix_skips_when_companion_present SFixVisibility T_VISIBILITY [T_VIEWVIS; T_INHERITEDVIS] pr o e en eq_refl He).
+  destruct H; [exists T_VIEWVIS|exists T_INHERITEDVIS]; split; auto; set_solver.
+Qed.
+
+(* ================================================================================================
+   3. Companions arrive within a frame
+   ================================================================================================ *)
+
+(* tick bookkeeping: the counter is positive and ahead of every recorded last run *)
+Lemma apply_cmd_ticks pr c :
+  p_tick (apply_cmd pr c) = p_tick pr /\ p_last_run (apply_cmd pr c) = p_last_run pr /\
+  p_order (apply_cmd pr c) = p_order pr.
+Proof.
+  assert (exists e, not_spawn_of e c) as [e He].
+  { destruct c; try (exists 0; intros ? [=]; fail). exists (e + 1). intros u' [=]. lia. }
+  destruct (cs_apply_cmd false [] e pr c He) as []; [intros [=]|]. auto.
+Qed.
+Lemma apply_cmds_ticks cs : forall pr,
+  p_tick (apply_cmds pr cs) = p_tick pr /\ p_last_run (apply_cmds pr cs) = p_last_run pr /\
+  p_order (apply_cmds pr cs) = p_order pr.
+Proof.
+  induction cs as [|c cs IH]; intros pr; cbn; [done|]. destruct (p_panic pr); [done|].
+  destruct (IH (apply_cmd pr c)) as (-> & -> & ->). apply apply_cmd_ticks.
+Qed.
+Lemma flush_ticks pr :
+  p_tick (flush pr) = p_tick pr /\ p_last_run (flush pr) = p_last_run pr /\ p_order (flush pr) = p_order pr.
+Proof.
+  unfold flush. generalize (p_order pr) at 1 2 3. intros l. revert pr.
+  induction l as [|s l IH]; intros pr; cbn; [done|].
+  destruct (p_cmdq pr !! sys_key s) as [cs|]; [|apply IH].
+  match goal with |- context [foldl ?f ?a l] => destruct (IH a) as (-> & -> & ->) end.
+  match goal with |- context [apply_cmds ?a cs] => destruct (apply_cmds_ticks cs a) as (-> & -> & ->) end.
+  done.
+Qed.
+Lemma run_system_ticks_ok pr s o : ticks_ok pr -> ticks_ok (run_system pr s o).
+Proof.
+  intros H. destruct (decide (s = SSync)) as [->|Hs].
+  - unfold run_system. destruct (p_panic pr); [done|]. unfold ticks_ok.
+    destruct (flush_ticks pr) as (-> & -> & _). exact H.
+  - eapply ticks_ok_sys_step; [apply ss_run_system; exact Hs|exact H].
+Qed.
+Theorem frame_ticks_ok pr o : ticks_ok pr -> ticks_ok (frame pr o).
+Proof.
+  intros H. unfold frame. destruct (p_panic pr); [done|].
+  pose proof (prelude_core pr o) as (_ & Eo & _ & Et & _ & El & _).
+  set (st2 := state_transition _) in *.
+  assert (ticks_ok st2) as H2 by (unfold ticks_ok; rewrite Et, El; exact H).
+  clearbody st2.
+  assert (forall l st, ticks_ok st -> ticks_ok (foldl (fun pr s => run_system pr s o) st l)) as Hf.
+  { induction l as [|s l IH]; intros st Hst; cbn; [done|]. apply IH. by apply run_system_ticks_ok. }
+  specialize (Hf (p_order st2) st2 H2). set (st3 := foldl _ _ _) in *. clearbody st3.
+  unfold last_schedule. unfold ticks_ok. cbn.
+  destruct (p_panic st3); [exact Hf|]. destruct (flush_ticks st3) as (-> & -> & _). exact Hf.
+Qed.
+Theorem frame_keeps_order pr o : p_order (frame pr o) = p_order pr.
+Proof.
+  unfold frame. destruct (p_panic pr); [done|].
+  pose proof (prelude_core pr o) as (_ & Eo & _).
+  set (st2 := state_transition _) in *. rewrite <- Eo. clearbody st2.
+  assert (forall l st, p_order (foldl (fun pr s => run_system pr s o) st l) = p_order st) as Hf.
+  { induction l as [|s l IH]; intros st; cbn; [done|]. rewrite IH.
+    destruct (decide (s = SSync)) as [->|Hs].
+    - unfold run_system. destruct (p_panic st); [done|]. apply flush_ticks.
+    - apply (ss_order _ _ _ (ss_run_system st s o Hs)). }
+  set (st3 := foldl _ _ _). assert (p_order st3 = p_order st2) as E3 by apply Hf.
+  clearbody st3. rewrite <- E3.
+  unfold last_schedule. cbn. destruct (p_panic st3); [done|]. apply flush_ticks.
+Qed.
+
+(* e is not the id of a pending network spawn: the allocator is past it and no queued command (nor a
+   command an application system is about to issue) spawns it again *)
+Definition no_respawn (e : ent) (pr : peer_state) : Prop := inv_cmds false [] e pr.
+(* in addition nobody but bundle_fix inserts companions of the list C on e: the registry does not
+   resolve them (so the network cannot), application commands do not, and a queued fix command for e
+   carries the whole list or none of it *)
+Definition companions_reserved (C : list tyid) (e : ent) (pr : peer_state) : Prop := inv_cmds true C e pr.
+
+Definition ent_has_some (C : list tyid) (pr : peer_state) (e : ent) : Prop :=
+  match p_ents pr !! e with None => True | Some en => exists t, t ∈ C /\ has_comp en t = true end.
+Definition ent_has_all (C : list tyid) (pr : peer_state) (e : ent) : Prop :=
+  match p_ents pr !! e with None => True | Some en => has_all C en end.
+
+Lemma inv_cmds_false C C' e pr : inv_cmds false C e pr -> inv_cmds false C' e pr.
+Proof.
+  intros [(Hb & Hq & Ha) _]. split; [|intros [=]]. split; [exact Hb|split].
+  - intros k cs E. eapply Forall_impl; [exact (Hq k cs E)|]. intros c [? _]. split; [done|intros [=]].
+  - intros n c Hc. destruct (Ha n c Hc) as [? _]. split; [done|intros [=]].
+Qed.
+
+(* MAIN THEOREM, one frame. Entity e is alive and carries the trigger component T, added after the
+   last run of the fix system s; s is somewhere in the executable order (any order, any number of
+   times, SSync anywhere or nowhere); the frame does not panic.  Then at the end of the frame e is
+   gone (despawned meanwhile: try_insert does nothing) or carries a companion of the kind - for the
+   eight single-companion systems: the companion. *)
+Theorem companions_added_within_a_frame s T C pr o e en c :
+  fix_spec s = Some (T, C) ->
+  s ∈ p_order pr ->
+  no_respawn e pr ->
+  p_ents pr !! e = Some en -> en_comps en !! T = Some c -> last_run pr (sys_key s) < c_added c ->
+  p_panic (frame pr o) = None ->
+  ent_has_some C (frame pr o) e /\ no_respawn e (frame pr o).
+Proof.
+  intros Hs Hin Hnr He Hc Hl Hp.
+  destruct (one_frame false s T C e Hs pr o Hin (inv_cmds_false _ _ _ _ Hnr)) as (H & Hi & _); auto.
+  { cbn. rewrite He. cbn. right. eauto. }
+  split; [|eapply inv_cmds_false; eauto]. cbn in H. unfold ent_has_some.
+  destruct (p_ents (frame pr o) !! e); [|done]. by apply sat_has_some.
+Qed.
+
+Corollary companion_added_within_a_frame s T t pr o e en c :
+  fix_spec s = Some (T, [t]) -> s ∈ p_order pr -> no_respawn e pr ->
+  p_ents pr !! e = Some en -> en_comps en !! T = Some c -> last_run pr (sys_key s) < c_added c ->
+  p_panic (frame pr o) = None ->
+  match p_ents (frame pr o) !! e with None => True | Some en' => has_comp en' t = true end.
+Proof.
+  intros Hs Hin Hnr He Hc Hl Hp.
+  destruct (companions_added_within_a_frame s T [t] pr o e en c Hs Hin Hnr He Hc Hl Hp) as [H _].
+  unfold ent_has_some in H. destruct (p_ents (frame pr o) !! e); [|done].
+  destruct H as (t' & Ht' & H). apply elem_of_list_singleton in Ht'. by subst.
+Qed.
+
+(* The full bundle (needed for Visibility, whose system inserts two companions but is disabled by
+   either): if e lacks all companions and nobody else inserts single ones, e ends with all of them. *)
+Theorem all_companions_added_within_a_frame s T C pr o e en c :
+  fix_spec s = Some (T, C) ->
+  s ∈ p_order pr ->
+  companions_reserved C e pr ->
+  p_ents pr !! e = Some en -> en_comps en !! T = Some c -> last_run pr (sys_key s) < c_added c ->
+  (forall t, t ∈ C -> has_comp en t = false) ->
+  p_panic (frame pr o) = None ->
+  ent_has_all C (frame pr o) e /\ companions_reserved C e (frame pr o).
+Proof.
+  intros Hs Hin Hnr He Hc Hl Hlack Hp.
+  destruct (one_frame true s T C e Hs pr o Hin Hnr) as (H & Hi & _); auto.
+  { cbn. rewrite He. split; [cbn; right; eauto|]. cbn. intros (t & Ht & Hh). rewrite Hlack in Hh; done. }
+  split; [|exact Hi]. unfold ent_has_all. cbn in H.
+  apply (withP_full C (phiD C) _ _ H). auto.
+Qed.
+
+(* between frames: e is gone, or lacks the trigger, or has a companion, or its trigger is newer than
+   the last run of the system *)
+Definition fix_pending_or_done (s : sysid) (T : tyid) (C : list tyid) (pr : peer_state) (e : ent) : Prop :=
+  phiFI T C (p_ents pr !! e) (last_run pr (sys_key s)).
+
+Lemma fix_pending_or_done_absent s T C pr e :
+  match p_ents pr !! e with None => True | Some en => has_comp en T = false end ->
+  fix_pending_or_done s T C pr e.
+Proof.
+  unfold fix_pending_or_done, phiFI, has_comp. destruct (p_ents pr !! e) as [en|]; [|done].
+  destruct (en_comps en !! T); [done|auto].
+Qed.
+
+Theorem fix_invariant_frame s T C pr o e :
+  fix_spec s = Some (T, C) -> s ∈ p_order pr -> ticks_ok pr -> no_respawn e pr ->
+  fix_pending_or_done s T C pr e -> p_panic (frame pr o) = None ->
+  fix_pending_or_done s T C (frame pr o) e /\ ticks_ok (frame pr o) /\ no_respawn e (frame pr o).
+Proof.
+  intros Hs Hin Ht Hnr H Hp.
+  destruct (inv_frame false s T C e Hs pr o Hin Ht (inv_cmds_false _ _ _ _ Hnr)) as ((H' & Hi & _) & Ht'); auto.
+  split; [exact H'|split; [exact Ht'|eapply inv_cmds_false; eauto]].
+Qed.
+
+(* Two frames, for components that arrive during a frame (applied by the SSync flush, from the
+   network or from an application command): whatever the state before (e absent, without trigger, or in
+   the invariant above), if e carries the trigger at the end of frame 1 then at the end of frame 2 it is
+   gone or has a companion. *)
+Theorem companions_added_within_two_frames s T C pr o1 o2 e en1 :
+  fix_spec s = Some (T, C) -> s ∈ p_order pr -> ticks_ok pr -> no_respawn e pr ->
+  fix_pending_or_done s T C pr e ->
+  p_panic (frame (frame pr o1) o2) = None ->
+  p_ents (frame pr o1) !! e = Some en1 -> has_comp en1 T = true ->
+  ent_has_some C (frame (frame pr o1) o2) e.
+Proof.
+  intros Hs Hin Ht Hnr H Hp He1 Hh.
+  destruct (two_frames false s T C e Hs pr o1 o2 en1 Hin Ht (inv_cmds_false _ _ _ _ Hnr)) as (H' & _); auto.
+  cbn in H'. unfold ent_has_some. unfold phiD in H'. destruct (p_ents (frame (frame pr o1) o2) !! e); [|done]. by apply sat_has_some.
+Qed.
+
+Theorem all_companions_added_within_two_frames s T C pr o1 o2 e en1 :
+  fix_spec s = Some (T, C) -> s ∈ p_order pr -> ticks_ok pr -> companions_reserved C e pr ->
+  fix_pending_or_done s T C pr e ->
+  match p_ents pr !! e with None => True | Some en => forall t, t ∈ C -> has_comp en t = false end ->
+  p_panic (frame (frame pr o1) o2) = None ->
+  p_ents (frame pr o1) !! e = Some en1 -> has_comp en1 T = true ->
+  ent_has_all C (frame (frame pr o1) o2) e.
+Proof.
+  intros Hs Hin Ht Hnr H Hlack Hp He1 Hh.
+  destruct (two_frames true s T C e Hs pr o1 o2 en1 Hin Ht Hnr) as (H' & _); auto.
+  { split; [exact H|]. destruct (p_ents pr !! e) as [en|]; cbn; [|done].
+    intros (t & Ht' & Hh'). rewrite Hlack in Hh'; done. }
+  unfold ent_has_all. cbn in H'. apply (withP_full C (phiD C) _ _ H'). auto.
+Qed.
+
+(* the between-frames invariant also survives the application's direct world accesses, so it holds in
+   every state reachable from a state where it holds (in particular from init_peer) *)
+Lemma spawn_comps_fresh now comps : forall en0,
+  (forall t c, en_comps en0 !! t = Some c -> c_added c = now) ->
+  forall t c, en_comps (foldl (fun en '(t, v) => put_comp now t v en) en0 comps) !! t = Some c -> c_added c = now.
+Proof.
+  induction comps as [|[t0 v0] comps IH]; intros en0 H0; cbn; [exact H0|].
+  apply IH. intros t c. unfold put_comp. destruct (en_comps en0 !! t0) as [c0|] eqn:E0; cbn.
+  - destruct (decide (t = t0)) as [->|].
+    + rewrite lookup_insert. intros [= <-]. cbn. eauto.
+    + rewrite lookup_insert_ne by done. eauto.
+  - destruct (decide (t = t0)) as [->|].
+    + rewrite lookup_insert. intros [= <-]. done.
+    + rewrite lookup_insert_ne by done. eauto.
+Qed.
+
+Definition app_rel (e : ent) (pr pr' : peer_state) : Prop :=
+  p_tick pr' = p_tick pr /\ p_last_run pr' = p_last_run pr /\
+  ent_rel (p_tick pr) (p_ents pr !! e) (p_ents pr' !! e).
+Lemma app_rel_cmd_step e pr pr' : cmd_step false [] e pr pr' -> app_rel e pr pr'.
+Proof. intros []. split; [done|split; [done|done]]. Qed.
+Lemma app_rel_same e pr pr' :
+  p_tick pr' = p_tick pr -> p_last_run pr' = p_last_run pr -> p_ents pr' = p_ents pr -> app_rel e pr pr'.
+Proof. intros ? ? E. split; [done|split; [done|]]. rewrite E. apply ent_rel_refl. Qed.
+
+Theorem app_step_keeps_fix_invariant s T C pr op e :
+  ticks_ok pr -> fix_pending_or_done s T C pr e ->
+  fix_pending_or_done s T C (app_step pr op) e /\ ticks_ok (app_step pr op).
+Proof.
+  intros Ht H.
+  assert (forall pr', app_rel e pr pr' -> fix_pending_or_done s T C pr' e /\ ticks_ok pr') as Hrel.
+  { intros pr' (Et & El & Hr). split.
+    - unfold fix_pending_or_done, last_run. rewrite El.
+      eapply (phiFI_closed false T C (p_tick pr)); eauto; [intros _; by apply ticks_ok_last_run|intros [=]].
+    - unfold ticks_ok. rewrite Et, El. exact Ht. }
+  destruct op; cbn [app_step]; try (apply Hrel; apply app_rel_same; reflexivity).
+  - (* OSpawn *)
+    split; [|exact Ht]. unfold fix_pending_or_done. cbn.
+    destruct (decide (e0 = e)) as [->|Hne]; [|by rewrite lookup_insert_ne].
+    rewrite lookup_insert. cbn. right.
+    match goal with |- match en_comps ?en !! T with _ => _ end => destruct (en_comps en !! T) as [c|] eqn:Ec end; [|done].
+    eapply spawn_comps_fresh in Ec; [|cbn; intros ? ? E; rewrite lookup_empty in E; discriminate].
+    rewrite Ec. change (last_run _ (sys_key s)) with (last_run pr (sys_key s)). by apply ticks_ok_last_run.
+  - apply Hrel, app_rel_cmd_step, cs_delete.
+  - apply Hrel, app_rel_cmd_step, cs_upd_nocomp. reflexivity.
+  - apply Hrel, app_rel_cmd_step, cs_upd_put; [reflexivity|intros [=]].
+  - apply Hrel, app_rel_cmd_step, cs_upd_nocomp. reflexivity.
+  - destruct (alive pr c); [|apply Hrel, app_rel_cmd_step, cs_refl].
+    apply Hrel, app_rel_cmd_step, cs_add_child.
+  - destruct host; apply Hrel; apply app_rel_same; reflexivity.
+Qed.
+
+Lemma init_fix_invariant s T C id st reg ord e :
+  fix_pending_or_done s T C (init_peer id st reg ord) e /\ ticks_ok (init_peer id st reg ord).
+Proof.
+  split; [unfold fix_pending_or_done; cbn; by rewrite lookup_empty|].
+  split; [cbn; lia|]. intros k v E. cbn in E. rewrite lookup_empty in E. discriminate.
+Qed.
+
+(* ================================================================================================
+   4. Fix commands cause no traffic
+   ================================================================================================ *)
+
+Theorem fix_does_not_disturb_convergence pr e cs :
+  p_out (apply_cmd pr (CFixInsert e cs)) = p_out pr /\
+  t_queue (apply_cmd pr (CFixInsert e cs)) = t_queue pr /\
+  t_ctok (apply_cmd pr (CFixInsert e cs)) = t_ctok pr /\
+  n_inbox (apply_cmd pr (CFixInsert e cs)) = n_inbox pr.
+Proof. destruct (fix_never_changes_replicated_values pr e cs) as (_ & ? & ? & ? & ? & _). auto. Qed.
+
+Theorem fix_flush_sends_nothing pr :
+  fix_only pr -> p_out (flush pr) = p_out pr /\ t_queue (flush pr) = t_queue pr /\ t_ctok (flush pr) = t_ctok pr.
+Proof. intros H. destruct (fix_flush_never_changes_replicated_values pr H) as (_ & ? & ? & ? & _). auto. Qed.
+
+(* ================================================================================================
+   Examples (non-vacuity) and the limits of the statements
+   ================================================================================================ *)
+
+Definition o0 : frame_oracle :=
+  {| fo_conn_events := []; fo_clients := []; fo_status := None; fo_srv_poll := []; fo_cli_poll := 0;
+     fo_downloads := [] |}.
+Definition has (pr : peer_state) (e : ent) (t : tyid) : bool :=
+  match p_ents pr !! e with Some en => has_comp en t | None => false end.
+
+(* entity 7 spawned by the application with a Transform, before the first frame *)
+Definition ex_state (order : list sysid) : peer_state :=
+  app_step (init_peer 0 [T_TRANSFORM] [T_TRANSFORM] order) (OSpawn 7 false [(T_TRANSFORM, VN 5)]).
+
+Lemma no_respawn_simple e pr :
+  e < p_next_ent pr -> p_cmdq pr = ∅ -> (forall n c, (n, c) ∈ p_app_cmds pr -> not_spawn_of e c) ->
+  no_respawn e pr.
+Proof.
+  intros Hl Hq Ha. split; [|intros [=]]. split; [lia|split].
+  - intros k cs E. rewrite Hq, lookup_empty in E. discriminate.
+  - intros n c Hc. split; [eauto|intros [=]].
+Qed.
+
+Example ex_hypotheses order :
+  SFixGlobalTransform ∈ order ->
+  let pr := ex_state order in
+  exists en c, p_ents pr !! 7 = Some en /\ en_comps en !! T_TRANSFORM = Some c /\
+    last_run pr (sys_key SFixGlobalTransform) < c_added c /\ no_respawn 7 pr /\ ticks_ok pr /\
+    SFixGlobalTransform ∈ p_order pr /\ has pr 7 T_GLOBALTRANSFORM = false.
+Proof.
+  intros Hin pr. eexists _, _. split; [vm_compute; reflexivity|]. split; [vm_compute; reflexivity|].
+  split; [vm_compute; reflexivity|]. split; [|split; [|split; [exact Hin|vm_compute; reflexivity]]].
+  - apply no_respawn_simple; [vm_compute; reflexivity|reflexivity|].
+    intros n c Hc. cbn in Hc. by apply elem_of_nil in Hc.
+  - split; [vm_compute; reflexivity|]. intros k v E. cbn in E. rewrite lookup_empty in E. discriminate.
+Qed.
+
+(* the fix system before the sync point, and after it: GlobalTransform is there after one frame *)
+Example ex_fix_before_sync :
+  has (frame (ex_state [SFixGlobalTransform; SSync]) o0) 7 T_GLOBALTRANSFORM = true /\
+  p_panic (frame (ex_state [SFixGlobalTransform; SSync]) o0) = None.
+Proof. vm_compute. split; reflexivity. Qed.
+Example ex_fix_after_sync :
+  has (frame (ex_state [SSync; SDetect T_TRANSFORM; SFixGlobalTransform]) o0) 7 T_GLOBALTRANSFORM = true /\
+  p_panic (frame (ex_state [SSync; SDetect T_TRANSFORM; SFixGlobalTransform]) o0) = None.
+Proof. vm_compute. split; reflexivity. Qed.
+(* and the replicated value is what it was *)
+Example ex_value_kept :
+  (p_ents (frame (ex_state [SFixGlobalTransform; SSync]) o0) !! 7) ≫= (fun en => c_val <$> en_comps en !! T_TRANSFORM)
+  = Some (VN 5).
+Proof. vm_compute. reflexivity. Qed.
+
+(* a Transform that arrives during the frame (an application system inserts it by a command):
+   the fix system sits before the application system: fixed in the next frame *)
+Definition ex_late (order : list sysid) : peer_state :=
+  app_step (app_step (init_peer 0 [T_TRANSFORM] [T_TRANSFORM] order) (OSpawn 7 false []))
+    (OAppCmd 0 (CAppInsert 7 T_TRANSFORM (VN 5))).
+Example ex_two_frames :
+  let pr := ex_late [SFixGlobalTransform; SApp 0; SSync] in
+  has pr 7 T_TRANSFORM = false /\
+  has (frame pr o0) 7 T_TRANSFORM = true /\ has (frame pr o0) 7 T_GLOBALTRANSFORM = false /\
+  has (frame (frame pr o0) o0) 7 T_GLOBALTRANSFORM = true /\ p_panic (frame (frame pr o0) o0) = None.
+Proof. vm_compute. repeat split; reflexivity. Qed.
+(* ... after the sync point that applies it: fixed in the same frame *)
+Example ex_same_frame :
+  let pr := ex_late [SApp 0; SSync; SFixGlobalTransform] in
+  has pr 7 T_TRANSFORM = false /\ has (frame pr o0) 7 T_GLOBALTRANSFORM = true.
+Proof. vm_compute. split; reflexivity. Qed.
+
+(* despawned between the run of the system and the flush: nothing happens, no panic (try_insert) *)
+Example ex_despawned_meanwhile :
+  let pr := app_step (ex_state [SFixGlobalTransform; SApp 0; SSync]) (OAppCmd 0 (CAppDespawn 7)) in
+  p_ents (frame pr o0) !! 7 = None /\ p_panic (frame pr o0) = None.
+Proof. vm_compute. split; reflexivity. Qed.
+
+(* Limits. (a) A frame that panics elsewhere stops everything (the process aborts). *)
+Example panic_blocks_fix :
+  let pr := app_step (ex_state [SApp 0; SSync; SFixGlobalTransform]) (OAppCmd 0 (CAppInsert 99 T_A (VN 1))) in
+  p_panic pr = None /\ p_panic (frame pr o0) = Some PInsertDead /\ has (frame pr o0) 7 T_GLOBALTRANSFORM = false.
+Proof. vm_compute. repeat split; reflexivity. Qed.
+
+(* (b) no_respawn is needed by the literal conclusion "alive => has the companion": a queued spawn
+   command re-using the id replaces the entity by a fresh one after the companion was inserted (in
+   Bevy the generation of the id would differ; the model has no generations) *)
+Example respawn_defeats_literal_statement :
+  let pr := ex_state [SFixGlobalTransform; SSync] <| p_cmdq := {[ sys_key SSync := [CSpawnSync 7 9] ]} |> in
+  p_panic (frame pr o0) = None /\ is_some (p_ents (frame pr o0) !! 7) = true /\
+  has (frame pr o0) 7 T_GLOBALTRANSFORM = false /\ has (frame pr o0) 7 T_TRANSFORM = false.
+Proof. vm_compute. repeat split; reflexivity. Qed.
+
+(* (c) Visibility: a lone ViewVisibility inserted by somebody else before the system runs disables
+   the system for good: InheritedVisibility never comes (Without<ViewVisibility>, Without<InheritedVisibility>) *)
+Definition ex_vis : peer_state :=
+  app_step (app_step (init_peer 0 [T_VISIBILITY] [T_VISIBILITY] [SApp 0; SSync; SFixVisibility])
+              (OSpawn 7 false [(T_VISIBILITY, VN 1)]))
+    (OAppCmd 0 (CAppInsert 7 T_VIEWVIS (VN 0))).
+Example visibility_full_bundle_refuted :
+  has ex_vis 7 T_VIEWVIS = false /\ has ex_vis 7 T_INHERITEDVIS = false /\
+  no_respawn 7 ex_vis /\ p_panic (frame (frame ex_vis o0) o0) = None /\
+  has (frame ex_vis o0) 7 T_VIEWVIS = true /\ has (frame ex_vis o0) 7 T_INHERITEDVIS = false /\
+  has (frame (frame ex_vis o0) o0) 7 T_INHERITEDVIS = false.
+Proof.
+  split; [vm_compute; reflexivity|]. split; [vm_compute; reflexivity|]. split.
+  - apply no_respawn_simple; [vm_compute; reflexivity|reflexivity|].
+    intros n c Hc. cbn in Hc. apply elem_of_list_singleton in Hc. injection Hc as _ ->. intros u [=].
+  - vm_compute. repeat split; reflexivity.
+Qed.
+(* without the foreign insert both companions arrive *)
+Example ex_vis_both :
+  let pr := app_step (init_peer 0 [T_VISIBILITY] [T_VISIBILITY] [SSync; SFixVisibility])
+              (OSpawn 7 false [(T_VISIBILITY, VN 1)]) in
+  has (frame pr o0) 7 T_VIEWVIS = true /\ has (frame pr o0) 7 T_INHERITEDVIS = true.
+Proof. vm_compute. split; reflexivity. Qed.
+
+(* the premise of the full-bundle theorem is satisfiable: nothing is queued, the registry knows
+   Visibility only *)
+Example ex_reserved :
+  let pr := app_step (init_peer 0 [T_VISIBILITY] [T_VISIBILITY] [SSync; SFixVisibility])
+              (OSpawn 7 false [(T_VISIBILITY, VN 1)]) in
+  companions_reserved [T_VIEWVIS; T_INHERITEDVIS] 7 pr /\ ticks_ok pr.
+Proof.
+  intros pr. split; [split; [split; [vm_compute; discriminate|split]|]|].
+  - intros k cs E. cbn in E. rewrite lookup_empty in E. discriminate.
+  - intros n c Hc. cbn in Hc. by apply elem_of_nil in Hc.
+  - intros _ t Ht. repeat (apply elem_of_cons in Ht as [->|Ht]); try reflexivity. by apply elem_of_nil in Ht.
+  - split; [vm_compute; reflexivity|]. intros k v E. cbn in E. rewrite lookup_empty in E. discriminate.
+Qed.
+
+(* The three limits as refutations of the stronger statements. *)
+Lemma ent_has_some_single t pr e : ent_has_some [t] pr e -> has pr e t = false -> p_ents pr !! e = None.
+Proof.
+  unfold ent_has_some, has. destruct (p_ents pr !! e) as [en|]; [|done].
+  intros (t' & Ht' & Hh) Hf. apply elem_of_list_singleton in Ht'. subst. congruence.
+Qed.
+Lemma ent_has_all_elem C t pr e : ent_has_all C pr e -> t ∈ C -> has pr e t = false -> p_ents pr !! e = None.
+Proof.
+  unfold ent_has_all, has. destruct (p_ents pr !! e) as [en|]; [|done].
+  intros Hall Ht Hf. rewrite (Hall t Ht) in Hf. discriminate.
+Qed.
+
+(* (a) "no panic in pr" instead of "no panic in the frame" *)
+Example companions_added_despite_panic_refuted :
+  exists pr o e en c,
+    fix_spec SFixGlobalTransform = Some (T_TRANSFORM, [T_GLOBALTRANSFORM]) /\
+    SFixGlobalTransform ∈ p_order pr /\ no_respawn e pr /\
+    p_ents pr !! e = Some en /\ en_comps en !! T_TRANSFORM = Some c /\
+    last_run pr (sys_key SFixGlobalTransform) < c_added c /\ p_panic pr = None /\
+    ~ ent_has_some [T_GLOBALTRANSFORM] (frame pr o) e.
+Proof.
+  exists (app_step (ex_state [SApp 0; SSync; SFixGlobalTransform]) (OAppCmd 0 (CAppInsert 99 T_A (VN 1)))), o0, 7.
+  eexists _, _. split; [reflexivity|]. split; [set_solver|]. split.
+  { apply no_respawn_simple; [vm_compute; reflexivity|reflexivity|].
+    intros n c Hc. cbn in Hc. apply elem_of_list_singleton in Hc. injection Hc as _ ->. intros u [=]. }
+  split; [vm_compute; reflexivity|]. split; [vm_compute; reflexivity|]. split; [vm_compute; reflexivity|].
+  split; [reflexivity|]. intros H. apply ent_has_some_single in H; [|vm_compute; reflexivity].
+  vm_compute in H. discriminate.
+Qed.
+
+(* (b) without no_respawn *)
+Example companions_added_without_no_respawn_refuted :
+  exists pr o e en c,
+    fix_spec SFixGlobalTransform = Some (T_TRANSFORM, [T_GLOBALTRANSFORM]) /\
+    SFixGlobalTransform ∈ p_order pr /\
+    p_ents pr !! e = Some en /\ en_comps en !! T_TRANSFORM = Some c /\
+    last_run pr (sys_key SFixGlobalTransform) < c_added c /\ p_panic (frame pr o) = None /\
+    ~ ent_has_some [T_GLOBALTRANSFORM] (frame pr o) e.
+Proof.
+  exists (ex_state [SFixGlobalTransform; SSync] <| p_cmdq := {[ sys_key SSync := [CSpawnSync 7 9] ]} |>), o0, 7.
+  eexists _, _. split; [reflexivity|]. split; [set_solver|].
+  split; [vm_compute; reflexivity|]. split; [vm_compute; reflexivity|]. split; [vm_compute; reflexivity|].
+  split; [vm_compute; reflexivity|]. intros H. apply ent_has_some_single in H; [|vm_compute; reflexivity].
+  vm_compute in H. discriminate.
+Qed.
+
+(* (c) all companions, without companions_reserved: Visibility *)
+Example all_companions_added_without_reservation_refuted :
+  exists pr o e en c,
+    fix_spec SFixVisibility = Some (T_VISIBILITY, [T_VIEWVIS; T_INHERITEDVIS]) /\
+    SFixVisibility ∈ p_order pr /\ no_respawn e pr /\
+    p_ents pr !! e = Some en /\ en_comps en !! T_VISIBILITY = Some c /\
+    last_run pr (sys_key SFixVisibility) < c_added c /\
+    (forall t, t ∈ [T_VIEWVIS; T_INHERITEDVIS] -> has_comp en t = false) /\
+    p_panic (frame pr o) = None /\
+    ~ ent_has_all [T_VIEWVIS; T_INHERITEDVIS] (frame pr o) e.
+Proof.
+  exists ex_vis, o0, 7. eexists _, _. split; [reflexivity|]. split; [set_solver|].
+  split; [exact (proj1 (proj2 (proj2 visibility_full_bundle_refuted)))|].
+  split; [vm_compute; reflexivity|]. split; [vm_compute; reflexivity|]. split; [vm_compute; reflexivity|].
+  split.
+  { intros t Ht. repeat (apply elem_of_cons in Ht as [->|Ht]); try (vm_compute; reflexivity). by apply elem_of_nil in Ht. }
+  split; [vm_compute; reflexivity|]. intros H.
+  assert (has (frame ex_vis o0) 7 T_INHERITEDVIS = false) as Hf by (vm_compute; reflexivity).
+  assert (T_INHERITEDVIS ∈ [T_VIEWVIS; T_INHERITEDVIS]) as Hin by (clear; set_solver).
+  pose proof (ent_has_all_elem [T_VIEWVIS; T_INHERITEDVIS] T_INHERITEDVIS (frame ex_vis o0) 7 H Hin Hf) as Hn.
+  vm_compute in Hn. discriminate.
+Qed.
+
+Print Assumptions fix_never_changes_replicated_values.
+Print Assumptions fix_flush_detector_unaffected.
+Print Assumptions fix_systems_only_queue.
+Print Assumptions present_companions_untouched.
+Print Assumptions visibility_partial_companion_not_fixed.
+Print Assumptions frame_ticks_ok.
+Print Assumptions companions_added_within_a_frame.
+Print Assumptions all_companions_added_within_a_frame.
+Print Assumptions companions_added_within_two_frames.
+Print Assumptions all_companions_added_within_two_frames.
+Print Assumptions app_step_keeps_fix_invariant.
+Print Assumptions fix_does_not_disturb_convergence.
